@@ -259,3 +259,7 @@ impl AsyncWrite for ByteWriter {
         Pin::new(inner).poll_shutdown(cx)
     }
 }
+
+#[cfg(kani)]
+#[path = "/verif/kani/swimos_byte_channel/channel.rs"]
+mod verif_kani;
